@@ -46,8 +46,16 @@ def generate_output_configuration(commandLineArguments, oConfig):
         dOutputConfiguration = {}
         if commandLineArguments.filename:
             dOutputConfiguration["file_list"] = []
+            # rule configurations given per file in the file_list are part of the effective configuration
+            dFileRules = {}
+            for dFile in configuration.get("file_list", []):
+                if isinstance(dFile, dict):
+                    dFileRules.update(dFile)
             for sFileName in commandLineArguments.filename:
-                dOutputConfiguration["file_list"].append(sFileName)
+                if dFileRules.get(sFileName):
+                    dOutputConfiguration["file_list"].append({sFileName: dFileRules[sFileName]})
+                else:
+                    dOutputConfiguration["file_list"].append(sFileName)
         if commandLineArguments.local_rules:
             dOutputConfiguration["local_rules"] = commandLineArguments.local_rules
         dOutputConfiguration["rule"] = oRules.get_configuration()
@@ -57,6 +65,9 @@ def generate_output_configuration(commandLineArguments, oConfig):
         if "severity" in configuration:
             # user defined severities are referenced by name in the rule section
             dOutputConfiguration["severity"] = configuration["severity"]
+        for sKey in ["file_rules", "linesep", "skip_phase"]:
+            if sKey in configuration:
+                dOutputConfiguration[sKey] = configuration[sKey]
         with open(commandLineArguments.output_configuration, "w") as json_file:
             json.dump(dOutputConfiguration, json_file, sort_keys=True, indent=2)
         sys.exit(fExitStatus)
